@@ -101,8 +101,8 @@ def run_case(case):
             return
         f, cmd = frames[0]
         for mech, d in K.judge_frame(gen, inst, call, f, cmd, timers):
-            if mech.startswith("other-timer"):
-                continue  # C11
+            if mech == "other-timer-not-byte-identical":
+                continue  # "exactly as last reported" is C11's clause
             viol.append({"mechanism": f"command-{mech}:at{gen}.{call[2]}",
                          "detail": dict(d, call=call, frame=f.raw, reading=H.jsonable(cmd))})
         obs["frames_judged"] = obs.get("frames_judged", 0) + 1
